@@ -19,7 +19,7 @@ func init() {
 		Rule: "one case = (MTU, payloader, abs-send-time off / id 1 / 14 (one-byte form) / 15 / 255 (two-byte form), start configuration of sequencer + random initial timestamp + clock, sequence of Packetize / SkipSamples / GeneratePadding calls); a recording payloader wraps the real one so that the oracle knows the fragments; non-trivial = at least one call returned two or more packets",
 		Assumptions: []string{
 			"MTU {64,65,100,267,1200,65535}; payloaders G711, G722, Opus, H264, H265, VP8 with picture ids, VP9 flexible, AV1 with inputs shaped for each; start configurations (sequencer start, initial timestamp via the random seam) in {(0,0),(1234,0xFFFFFC40),(65534,0xFFFFFFFF),(65535,0x01020304)}; clock answers through the verif seam from instants around the 64 s wrap of the 24-bit field",
-			"call alphabet: Packetize(len in {1,B-1,B,B+1,2B,3B+5}, samples in {0,1,960,2^32-1}) (B = MTU-12), SkipSamples {0,1,2^31,2^32-1}, GeneratePadding {0,1,2}: all sequences of depth 2 over the full alphabet, depth 3 (thorough 4) over a 12-call sub-alphabet; MTU 1200 and 65535 use lengths {1,B,B+1} and depth 2",
+			"call alphabet: Packetize(len in {1,B-1,B,B+1,2B,3B+5}, samples in {0,1,960,2^32-1}) (B = MTU-12), SkipSamples {0,1,2^31,2^32-1}, GeneratePadding {0,1,2}, EnableAbsSendTime {0,1,15} (reconfiguration between calls): all sequences of depth 2 over the full alphabet, depth 3 (thorough 4) over a 15-call sub-alphabet; MTU 1200 and 65535 use lengths {1,B,B+1} and depth 2",
 			"long runs: all sequences of 5 (quick) / 7 (thorough) calls over {Packetize(B+1,960), Packetize(1,1), SkipSamples(2^31), GeneratePadding(1), Packetize(300*B+7, 90000)} for MTU {64,100} x {G711, H264, VP8} x abs-send-time off/id 1 x 4 start configurations: trains of more than 256 packets and sequences that cross the 16-bit wrap in the middle of a train",
 			"Opus ignores the MTU by design: the size clause applies to Opus only when the payload fits the budget",
 		},
@@ -121,7 +121,7 @@ func c06AbsSendTime(t time.Time) []byte {
 }
 
 type c06Op struct {
-	kind    int // 0 Packetize, 1 SkipSamples, 2 GeneratePadding
+	kind    int // 0 Packetize, 1 SkipSamples, 2 GeneratePadding, 3 EnableAbsSendTime(samples)
 	lenIdx  int
 	samples uint32
 }
@@ -148,6 +148,9 @@ func c06Alphabet(full, bigMTU bool) []c06Op {
 	}
 	for _, s := range pads {
 		ops = append(ops, c06Op{2, 0, s})
+	}
+	for _, id := range []uint32{0, 1, 15} {
+		ops = append(ops, c06Op{3, 0, id}) // (re)configure the abs-send-time extension mid-stream
 	}
 	return ops
 }
@@ -215,8 +218,9 @@ func c06Drive(c *mc.Ctx, mtu, pi, absID int, start c06Start, ops []c06Op) {
 	B := mtu - 12
 	lenOf := []int{1, B - 1, B, B + 1, 2 * B, 3*B + 5, 300*B + 7}
 	var trace []string
+	absID0 := absID
 	hist := func() string {
-		return fmt.Sprintf("mtu=%d payloader=%s abs-send-time id=%d seq-start=%d initial-ts=%#x: %s", mtu, c06Payloaders[pi].name, absID, start.seq, start.ts, strings.Join(trace, "; "))
+		return fmt.Sprintf("mtu=%d payloader=%s abs-send-time id=%d seq-start=%d initial-ts=%#x: %s", mtu, c06Payloaders[pi].name, absID0, start.seq, start.ts, strings.Join(trace, "; "))
 	}
 	seq, ts := start.seq, start.ts
 	multi := false
@@ -289,6 +293,10 @@ func c06Drive(c *mc.Ctx, mtu, pi, absID int, start c06Start, ops []c06Op) {
 			trace = append(trace, fmt.Sprintf("SkipSamples(%d)", op.samples))
 			p.SkipSamples(op.samples)
 			ts += op.samples
+		case 3:
+			trace = append(trace, fmt.Sprintf("EnableAbsSendTime(%d)", op.samples))
+			p.EnableAbsSendTime(int(op.samples))
+			absID = int(op.samples)
 		case 2:
 			trace = append(trace, fmt.Sprintf("GeneratePadding(%d)", op.samples))
 			pkts := p.GeneratePadding(op.samples)
